@@ -19,6 +19,7 @@ type PropSpec struct {
 	Explanation string   `json:"explanation"`
 	Bounded     []string `json:"bounded"`
 	MinObls     int      `json:"min_obligations"`
+	ExcludeKinds []string `json:"exclude_kinds"`
 }
 
 const verifDir = "/verif"
@@ -212,7 +213,17 @@ func cmdCheck(args []string) int {
 				continue
 			}
 			funcsOK = append(funcsOK, key)
-			obls = append(obls, x.obls...)
+			for _, o := range x.obls {
+				skip := false
+				for _, k := range ps.ExcludeKinds {
+					if o.Kind == k {
+						skip = true
+					}
+				}
+				if !skip {
+					obls = append(obls, o)
+				}
+			}
 			for t := range x.trusted {
 				trusted[t] = true
 			}
